@@ -295,6 +295,11 @@ def rule_flag(ctx: Ctx):
                 ok = True
         rep.check(ok, "C05.flag", aos.loc(), "has_async_callbacks = any wrapper of any executor is a coroutine", aos.key,
                   f"self.has_async_callbacks = {v}")
+    check_engine_choice(ctx, "C05.flag")
+
+
+def check_engine_choice(ctx: Ctx, rule: str):
+    rep = ctx.rep
     ge = ctx.fn("StateMachine._get_engine")
     seen = {}
     for p in ctx.paths(ge, exc_edges="none"):
@@ -305,7 +310,7 @@ def rule_flag(ctx: Ctx):
             seen[pol[0]] = cls
     a_names = {e.name for e in ctx.k.engines if ctx.k.engine_fn(e, "_activate").is_async}
     s_names = {e.name for e in ctx.k.engines if not ctx.k.engine_fn(e, "_activate").is_async}
-    rep.check(seen.get(True) in a_names and seen.get(False) in s_names, "C05.flag", ge.loc(),
+    rep.check(seen.get(True) in a_names and seen.get(False) in s_names, rule, ge.loc(),
               "the engine is chosen from has_async_callbacks: async engine iff some callback is a coroutine", ge.key,
               f"has_async_callbacks -> {seen}")
 
